@@ -77,8 +77,13 @@ def big_tagcount(r):
     return rt.frame(bytes(b)) if framed else bytes(b)
 
 
-def junk(r, good_srv):
-    k = r.randrange(20)
+JUNK_CLASSES = 20
+
+
+def junk(r, good_srv, k=None):
+    """one malformed / unanswerable datagram; k selects the class (None: drawn)"""
+    if k is None:
+        k = r.randrange(JUNK_CLASSES)
     if k == 19:
         return big_tagcount(r)
     if k == 16:  # >= 3 tags, mutated offset table (IETF request with SRV has 4 tags)
